@@ -72,7 +72,7 @@ def corr(ctx, drv):
     ctx.count("relations")
 
 
-def same(a, b, what, exact=True, tol=1e-4, anchor_rounding=False):
+def same(a, b, what, exact=True, tol=1e-4, anchor_rounding=False, ref_tol=None):
     """anchor_rounding: refined positions are float32(window-relative + peak - c); translating the peak changes the
     rounding of that sum by up to one float32 ulp of the coordinate, which is not a position dependence"""
     msgs = []
@@ -91,6 +91,8 @@ def same(a, b, what, exact=True, tol=1e-4, anchor_rounding=False):
             lim = tol * np.maximum(1.0, np.abs(x))
             if nm == "centres":
                 continue
+            if nm == "refineds" and ref_tol is not None:
+                lim = np.maximum(lim, np.minimum(np.asarray(ref_tol, dtype=np.float64), 0.5)[:, None])
             if np.any(np.abs(x - y) > lim):
                 i = np.argwhere(np.abs(x - y) > lim)[0].tolist()
                 msgs.append(f"{what}: {nm} differ at {i}: {x[tuple(i)]} vs {y[tuple(i)]}")
@@ -176,8 +178,24 @@ def run_case(kind, p):
                 if ok_both:
                     keep[j] = False
         if keep.any():
+            # the centre-of-mass refinement divides by the sum of (value - minimum) over the 5x5 neighbourhood: on a plateau of the
+            # correlation map (all 25 values equal to a few 1e-3) that sum is tiny and float32 rounding of the map (a few ulp of its
+            # magnitude per value) moves the centre of mass by much more than an ulp -- such entries get the tolerance that the
+            # conditioning of the quotient implies (from the float64 reference map), everything else the usual 1e-4
+            ref_tol = np.zeros(len(a[0]))
+            if not us:
+                for j in np.flatnonzero(keep):
+                    m_ = refimpl.ref_maps(frame.astype(np.float64), pattern, pk[j:j + 1], "full")[0]
+                    rel = (np.asarray(a[0][j]) - pk[j] + c).astype(int)
+                    if np.all(rel >= 0) and np.all(rel < 2 * c):
+                        r_ = int(min(2, rel[0], rel[1], 2 * c - rel[0] - 1, 2 * c - rel[1] - 1))
+                        if r_ > 0:
+                            cut = m_[rel[0] - r_:rel[0] + r_ + 1, rel[1] - r_:rel[1] + r_ + 1]
+                            s_ = float((cut - cut.min()).sum())
+                            if s_ > 0:
+                                ref_tol[j] = 32 * float(np.finfo(np.float32).eps) * float(np.abs(m_).max()) * cut.size * r_ / s_
             msgs += same(tuple(np.asarray(x)[keep] for x in a), tuple(np.asarray(x)[keep] for x in b),
-                         f"full, cyclic shift {t.tolist()}{ustag}", exact=False)
+                         f"full, cyclic shift {t.tolist()}{ustag}", exact=False, ref_tol=ref_tol[keep])
     # --- transposition -----------------------------------------------------------------------------
     for nm, runner in (("fast", impl.run_fast), ("full", run_full)):
         a = runner(frame, pattern, peaks, b=p["b"], upsample=us)
